@@ -319,8 +319,34 @@ def t_words():
     return stats
 
 
+def t_lists():
+    """membership in list literals of 1..100 items (ints, floats, strings, mixed), both operand orders, int / float / string look-alikes"""
+    stats = Stats()
+    n = 0
+    V = ["q", "@", [["c", [["n", "v"]]]]]
+    for k in (1, 2, 5, 16, 31, 32, 33, 34, 40, 64, 65, 100):
+        pools = {"ints": list(range(1, k + 1)), "floats": [i + 0.0 for i in range(1, k + 1)], "halves": [i + 0.5 for i in range(1, k + 1)],
+                 "strings": [str(i) for i in range(1, k + 1)], "mixed": [[i, float(i) + 0.5, str(i), None][i % 4] for i in range(1, k + 1)]}
+        doc = [{"v": 3}, {"v": 3.0}, {"v": "3"}, {"v": k}, {"v": float(k)}, {"v": k + 1}, {"v": None}, {"v": 3.5}, {"v": k + 0.5}, {"v": str(k)}, {"v": 1}, {"v": 1.0}]
+        for pname, items in pools.items():
+            for ast_f in (["in", V, ["list", items]], ["has", ["list", items], V], ["not", ["par", ["in", V, ["list", items]]]],
+                          ["or", ["in", V, ["list", items]], ["cmp", "==", V, ["lit", None]]]):
+                ast = ["q", "$", [["c", [["f", ast_f]]]]]
+                try:
+                    text = Renderer(None, ext=EXT).query(ast, top=True)
+                except ValueError:
+                    continue
+                exp, _ = judge(stats, ast, doc, text, "lists", extra=None)
+                twins(stats, ast, doc, text, None)
+                n += 1
+                if exp:
+                    stats.nt("lists", k, pname, ast_f[0])
+    stats.subspaces.append({"name": "list literals of 1..100 items x 5 item kinds x 4 expression shapes on 12 look-alike candidates", "size": n, "exhaustive": True})
+    return stats
+
+
 def tasks(tier, seed):
-    ts = [{"name": "matrix", "fn": "t_matrix"}, {"name": "words", "fn": "t_words"}]
+    ts = [{"name": "matrix", "fn": "t_matrix"}, {"name": "words", "fn": "t_words"}, {"name": "lists", "fn": "t_lists"}]
     n = 1800 if tier == "quick" else 30000
     for k in range(16):
         ts.append({"name": "random-%d" % k, "fn": "t_random", "kw": {"seed": mix(seed, ID, k), "n": n}})
